@@ -685,6 +685,14 @@ def has_nul_str(v):
     return isinstance(v, list) and any(has_nul_str(x) for x in v)
 
 
+def has_odd_addr(v):
+    if isinstance(v, list):
+        if v and isinstance(v[0], str) and not v[0].isascii():
+            return True
+        return any(has_odd_addr(x) for x in v)
+    return False
+
+
 def has_noslash(v):
     if isinstance(v, list):
         if v and isinstance(v[0], str) and not v[0].startswith('/'):
@@ -718,7 +726,7 @@ def search(ctx, failures):
                    {'probe': 'size', 'case': k, 'predicted': o['pred'], 'real': len(dgram), 'expected': 'predicted >= real',
                     'command': './check C06 --replay <this file>'}, 'size_upper_bound')
         if o['pred'] < 0:
-            report('C06:size_prediction_refuses_accepted',
+            report('C06:size_prediction_refuses_accepted' + (':non_ascii_address' if has_odd_addr(v) else ''),
                    '%s raises although the %s is accepted for sending and encodes to %d bytes: send_clumped_bundles/sync cannot send it'
                    % (call, 'message' if k['kind'] == 'msg' else 'bundle', len(dgram)),
                    {'probe': 'size', 'case': k, 'predicted': 'raises', 'real': len(dgram), 'expected': 'a size >= real',
